@@ -409,6 +409,23 @@ def _nonempty(b: Binder, guard):
 
 # ---- comparison of the re-read record with the input ----------------------------------------------------------------
 
+def explicit_false_facts(nf: NF) -> list:
+    """Restriction of known finding K19: lexicalized / phonemic, when present, are False."""
+    out = []
+    for rec in nf.records:
+        for k, s in rec.slots.items():
+            if k in DEFAULT_TRUE and isinstance(s.value, SV):
+                out.append(z3.Implies(z_bool(s.present), z3.Not(s.value.z)))
+    return out
+
+
+def restrictions(nf: NF) -> dict:
+    return {'K7': nonempty_facts(nf), 'K19': explicit_false_facts(nf)}
+
+
+_SUFFIX = {None: '', 'K7': ':optional', 'K19': ':default-true'}
+
+
 def nonempty_facts(nf: NF) -> list:
     """Restriction of known finding K7: optional string attributes (and metadata values) are not the empty string."""
     out = []
@@ -427,7 +444,8 @@ class Cmp:
         self.goals: list = []       # (label, goal or bool, k7-sensitive)
 
     def add(self, label, goal, k7=False):
-        self.goals.append((label, goal, k7))
+        # third component: id of the known finding whose formal restriction applies to this goal (or None)
+        self.goals.append((label, goal, 'K7' if k7 is True else (k7 or None)))
 
     def record(self, x: SRec, r, path: str, deep: bool = True, levels: int = 9):
         """levels: how many levels of children were read back (children below are checked by their own group)."""
@@ -454,7 +472,10 @@ class Cmp:
             if is_child and levels <= 0:
                 continue                 # not read back in this group
             if k in DEFAULT_TRUE:
+                # the value by its effect (absent = true, the DTD default) and, strictly, the presence of the key
+                # (an explicit true is not written back: known finding K19)
                 self.default_true(lab, px, xv, pr, sr.value if sr is not None else None)
+                self.add(f'{lab}:presence', px == pr, 'K19')
                 continue
             k7 = isinstance(xv, (SV, SOptRec))
             self.add(f'{lab}:presence', px == pr, k7)
@@ -642,7 +663,7 @@ def group_obligations(group: str, version: str, uri: str, prop: str) -> list:
                                    **cm), []))
         c = Cmp(version)
         c.record(x, r, group, levels=depth)
-        k7 = nonempty_facts(nf)
+        restr = restrictions(nf)
         groups: dict = {}
         for label, goal, sens in c.goals:
             rec_path = label.split(':')[0].rsplit('.', 1)[0]
@@ -655,7 +676,7 @@ def group_obligations(group: str, version: str, uri: str, prop: str) -> list:
                                               detail='structure of the re-read record', **cm))
                 else:
                     singles.append(Obligation(f'{base}:rt:{label}', kind='post', assumptions=asm, goal=goal,
-                                              finding='K7' if sens else None, restricted=k7 if sens else None,
+                                              finding=sens, restricted=restr[sens] if sens else None,
                                               vacuity=False, replay=make_replay(group, version, x),
                                               detail=f'load(dump(x)) == x restricted to LMF {version}: {label}', **cm))
             zgoals = [g for _, g in items if not isinstance(g, bool)]
@@ -663,9 +684,9 @@ def group_obligations(group: str, version: str, uri: str, prop: str) -> list:
             if not decided or not zgoals:
                 obs.extend((s, []) for s in singles)
                 continue
-            merged = Obligation(f'{base}:rt:{rec_path}{":optional" if sens else ""}', kind='post', assumptions=asm,
+            merged = Obligation(f'{base}:rt:{rec_path}{_SUFFIX[sens]}', kind='post', assumptions=asm,
                                 goal=z3.And(*zgoals), vacuity=first,
-                                finding='K7' if sens else None, restricted=k7 if sens else None,
+                                finding=sens, restricted=restr[sens] if sens else None,
                                 detail=f'load(dump(x)) == x restricted to LMF {version}: fields '
                                        f'{[l for l, _ in items]}'[:400], **cm)
             first = False
@@ -909,7 +930,7 @@ def lexicon_obligations(version: str, uri: str, prop: str) -> list:
         # entries / synsets / frames are not read back here
         goals = [(l, g, s) for l, g, s in c.goals if l.split(':')[0].split('.')[1].split('[')[0]
                  not in ('entries', 'synsets', 'frames')]
-        k7 = nonempty_facts(nf)
+        restr = restrictions(nf)
         groups: dict = {}
         for label, goal, sens in goals:
             groups.setdefault((label.split(':')[0].rsplit('.', 1)[0], sens), []).append((label, goal))
@@ -921,16 +942,16 @@ def lexicon_obligations(version: str, uri: str, prop: str) -> list:
                                               detail='structure of the re-read record', **cm))
                 else:
                     singles.append(Obligation(f'{base}:rt:{label}', kind='post', assumptions=asm, goal=goal,
-                                              finding='K7' if sens else None, restricted=k7 if sens else None,
+                                              finding=sens, restricted=restr[sens] if sens else None,
                                               vacuity=False, replay=make_replay('lexicon', version, x),
                                               detail=f'load(dump(x)) == x restricted to LMF {version}: {label}', **cm))
             zgoals = [g for _, g in items if not isinstance(g, bool)]
             if not all(g for _, g in items if isinstance(g, bool)) or not zgoals:
                 obs.extend((s, []) for s in singles)
                 continue
-            obs.append((Obligation(f'{base}:rt:{rec_path}{":optional" if sens else ""}', kind='post', assumptions=asm,
-                                   goal=z3.And(*zgoals), finding='K7' if sens else None,
-                                   restricted=k7 if sens else None,
+            obs.append((Obligation(f'{base}:rt:{rec_path}{_SUFFIX[sens]}', kind='post', assumptions=asm,
+                                   goal=z3.And(*zgoals), finding=sens,
+                                   restricted=restr[sens] if sens else None,
                                    detail=f'load(dump(x)) == x restricted to LMF {version}: '
                                           f'{[l for l, _ in items]}'[:400], **cm), singles))
     return obs
